@@ -4,6 +4,7 @@ This includes species composition and thermodynamic properties.
 """
 
 import logging
+import os
 import warnings
 
 import numpy as np
@@ -13,6 +14,9 @@ from minplascalc import species as _sp
 from minplascalc import units as u
 
 __all__ = ["lte_from_names", "LTE"]
+
+# Verification hook (off unless MINPLASCALC_VERIF=1): record solver iterations.
+_VERIF = os.environ.get("MINPLASCALC_VERIF") == "1"
 
 
 class LTE:
@@ -509,6 +513,8 @@ class LTE:
         # The estimate is the same for all species, and is given by the user.
         # It is typically O(1e20).
         self.__Ni = np.full(nb_species, self.gfe_initial_particles)
+        if _VERIF:
+            self._verif_trace = []
 
         # Minimise the Gibbs free energy.
         # The minimisation is done iteratively, with a relaxation factor to
@@ -595,6 +601,20 @@ class LTE:
                 # Calculate the relaxation factor.
                 new_relaxation_factors = max_allowed_delta_Ni / delta_Ni
                 relaxation_factor = new_relaxation_factors.min()
+                if _VERIF:
+                    self._verif_trace.append(
+                        (
+                            governor_iters,
+                            self.__Ni.copy(),
+                            new_Ni.copy(),
+                            solution[nb_species:].copy(),
+                            float(relaxation_factor),
+                            float(relative_tolerance),
+                            self.__E0.copy(),
+                            self.__dE.copy(),
+                            mu.copy(),
+                        )
+                    )
                 # Apply the relaxation factor to the new number of particles.
                 self.__Ni = (
                     1 - relaxation_factor
@@ -616,6 +636,8 @@ class LTE:
                 "Minimiser could not find a converged solution, "
                 "results may be inaccurate."
             )
+        if _VERIF:
+            self._verif_success = minimiser_success
         logging.debug(governor_iters, relaxation_factor, relative_tolerance)
         logging.debug(self.__Ni)
 
